@@ -683,8 +683,9 @@ func (s *session) onPublishCatalog(wstream io.ReadWriteCloser, m *controlmessage
 func (s *session) onPublishTrack(wstream io.ReadWriteCloser) error {
 	s.mutex.Lock()
 	if s.state != defs.APIMoQSessionStatePublish {
+		state := s.state
 		s.mutex.Unlock()
-		return fmt.Errorf("unexpected PUBLISH in state %s", s.state)
+		return fmt.Errorf("unexpected PUBLISH in state %s", state)
 	}
 	s.mutex.Unlock()
 
